@@ -213,6 +213,8 @@ CLAIMED["C18"] = dict(
         "C18_datetime_render - for every shared Datetime directive (%n %Y %m %d %H %M %S) and EVERY instant the two render the same text (the classic table's strftime pattern "
         "of each directive is the asset's, on the regenerated tables); C18_serial_patterns / C18_same_compiled - the patterns of %n %p %c %u and the anchors are identical in "
         "the two regenerated tables and formats over them compile to the same pattern text (%b is an 8-bit field in the asset table, unbounded in the classic one); "
+        "C18_pad_agree / C18_bin_agree - on the WHOLE domain of the two fixed-width directives (every n < 1000 with %p, every n < 256 with %b, both modes) both implementations read the "
+        "rendered text as n (kernel evaluation of the complete finite domains, lifted to the quantified statement); C18_format_tokeniser - both render with the same single-pass tokeniser; "
         "C18_parse_instances - kernel-evaluated: strings both accept are read as the same value in strict and non-strict mode, contradictory statements are rejected by both in "
         "strict mode, impossible dates by both. Agreement of parsed values for all strings and formats, of arithmetic and ordering, and the round trip on the asset formatters' "
         "own directives are decided by the sweep (classic formatters as reference) and the correspondence (aserial.* / adatetime.* ops)."),
